@@ -48,6 +48,7 @@ func c13Server(srv, cli *memConn, dieAfter int, how int, announceCaps bool, done
 	}
 	w("* OK " + capsCode + "ready\r\n")
 	n := 0
+	exists := -1 // messages in the selected mailbox; -1 = none selected
 	for {
 		line, err := br.ReadString('\n')
 		if err != nil {
@@ -92,6 +93,30 @@ func c13Server(srv, cli *memConn, dieAfter int, how int, announceCaps bool, done
 			w("* SEARCH 1 2\r\n" + tag + " OK done\r\n")
 		case "CAPABILITY":
 			w("* CAPABILITY IMAP4rev1 IDLE ENABLE\r\n" + tag + " OK done\r\n")
+		case "SELECT", "EXAMINE":
+			exists = 5
+			w("* 5 EXISTS\r\n* FLAGS (\\Seen \\Deleted)\r\n* OK [PERMANENTFLAGS (\\Seen \\*)] ok\r\n* OK [UIDVALIDITY 1] ok\r\n" + tag + " OK [READ-WRITE] done\r\n")
+		case "NOOP":
+			// unilateral updates of the selected mailbox: the client rewrites its summary while callers
+			// hold (and read) the snapshot Mailbox() gave them
+			up := ""
+			if exists >= 0 {
+				switch n % 4 {
+				case 0:
+					if exists > 0 {
+						exists--
+						up = "* 1 EXPUNGE\r\n"
+					}
+				case 1:
+					exists++
+					up = fmt.Sprintf("* %d EXISTS\r\n", exists)
+				case 2:
+					up = "* FLAGS (\\Seen \\Deleted \\Flagged)\r\n"
+				case 3:
+					up = "* OK [PERMANENTFLAGS (\\Seen \\Deleted)] ok\r\n"
+				}
+			}
+			w(up + tag + " OK done\r\n")
 		case "IDLE":
 			w("+ idling\r\n")
 			if _, err := br.ReadString('\n'); err != nil { // DONE
@@ -104,7 +129,10 @@ func c13Server(srv, cli *memConn, dieAfter int, how int, announceCaps bool, done
 	}
 }
 
-var c13RaceKinds = []string{"noop", "fetch", "list", "login", "login2", "append", "search", "enable", "idle", "noop", "fetch"}
+// what the accessor goroutine reads ends up here (so that the reads are not optimised away)
+var c13Sink int
+
+var c13RaceKinds = []string{"noop", "fetch", "list", "login", "login2", "append", "search", "enable", "idle", "noop", "fetch", "select", "noop", "noop"}
 
 // c13RaceOnce runs one workload; returns "" or a failure description.
 func c13RaceOnce(seed uint64) string {
@@ -147,6 +175,8 @@ func c13RaceOnce(seed uint64) string {
 				switch k {
 				case "noop":
 					cl.Noop().Wait()
+				case "select":
+					cl.Select("INBOX", nil).Wait()
 				case "fetch":
 					cl.Fetch(imap.SeqSetNum(1, 2), &imap.FetchOptions{UID: true}).Collect()
 				case "list":
@@ -182,6 +212,7 @@ func c13RaceOnce(seed uint64) string {
 	go guard(&wg, func() {
 		rs := r.fork(99)
 		closeAt := rs.intn(400)
+		var held []*imapclient.SelectedMailbox
 		for n := 0; ; n++ {
 			select {
 			case <-stop:
@@ -190,7 +221,23 @@ func c13RaceOnce(seed uint64) string {
 			}
 			cl.State()
 			cl.Caps()
-			cl.Mailbox()
+			if mb := cl.Mailbox(); mb != nil {
+				// the snapshot is the caller's to read (documented read-only): the client must
+				// never write to it again, or this read races with its reader goroutine
+				held = append(held, mb)
+				if len(held) > 8 {
+					held = held[1:]
+				}
+			}
+			for _, mb := range held {
+				c13Sink += int(mb.NumMessages) + len(mb.Flags) + len(mb.PermanentFlags) + len(mb.Name)
+				for _, f := range mb.Flags {
+					c13Sink += len(f)
+				}
+				for _, f := range mb.PermanentFlags {
+					c13Sink += len(f)
+				}
+			}
 			if closeByClient && n == closeAt {
 				pending.Store("Close", struct{}{})
 				cl.Close()
